@@ -139,6 +139,9 @@ func runOracles(job JobCfg, res *Result) {
 		for k, v := range checkImports(job, c, si.pkgPath) {
 			res.Checks[k] = v
 		}
+		if d := checkFieldNames(c, job); d != "" {
+			res.Checks["C13"] = d
+		}
 		if d := checkSolo(job, c); d != "" && res.Checks["C20"] == "" {
 			res.Checks["C20"] = d
 		}
